@@ -453,7 +453,7 @@ func vC20Run(scn vC20Scenario) []map[string]interface{} {
 				case a := <-g.arrivals:
 					take(a)
 				case <-done:
-				case <-time.After(5 * time.Second):
+				case <-time.After(20 * time.Second):
 					g.log(map[string]interface{}{"ev": "hang"})
 					goto finish
 				}
@@ -518,7 +518,7 @@ func vC20Run(scn vC20Scenario) []map[string]interface{} {
 			case a := <-g.arrivals:
 				take(a)
 			case <-done:
-			case <-time.After(5 * time.Second):
+			case <-time.After(20 * time.Second):
 				g.log(map[string]interface{}{"ev": "hang"})
 				goto finish
 			}
